@@ -62,6 +62,21 @@ CLAIMED.update({
     },
 })
 
+CLAIMED.update({
+    "C01": {
+        "technique": "TLA+ writer model (ExprEmit) checked by TLC against value semantics (ExprSem) through a TLA+ SQL reader (Sql) under two precedence tables; every real compilation read and evaluated by TLC (trace validation)",
+        "text": "Design level: for every expression of the families (all pairs of 16 binary-level operators x both groupings x decorated operands, triples in all five groupings with minimal and redundant parentheses, sign/index/call/not/strcat/paren nests in nine operand contexts, a 40-expression menu incl. every built-in in 21 expression positions, random deep trees) TLC checks that the writer model's SQL, read back under the ClickHouse and the PostgreSQL precedence tables, has the PQL value on every row of four value domains (NULL/typing, three-valued logic, integers, case). Conformance: the same programs are compiled by the real Compile; TLC reads each real statement, locates the expression slot and evaluates it against the PQL meaning on every row; comments or unlexable output and non-termination are violations by themselves.",
+        "note": "No SQL engine offline: the dialect is the specification in Sql.tla / ExprSem.tla. Uninterpreted functions are opaque terms (equal iff same function, same arguments, same order).",
+        "ref": "DESIGN.md 3.4, 3.5, 4 (C01)",
+    },
+    "C06": {
+        "technique": "TLA+ lexical-scoping semantics (fold of parameters and lets) vs writer model with scope, checked by TLC; real compilations with parameter maps read and evaluated by TLC with placeholders bound",
+        "text": "TLC enumerates 10 binding set-ups x 9 value shapes x 20 use sites x 10 positions (incl. row counts and join conditions); design level: the writer model with its token scope agrees with lexical scoping on every row and placeholder valuation; conformance: each program is compiled for real with its parameter map and the SQL slot is evaluated by TLC; lets that are unused or follow the query must leave the output text unchanged.",
+        "note": "Parameter snippets are single placeholders (verbatim insertion is by contract).",
+        "ref": "DESIGN.md 3.7, 4 (C06)",
+    },
+})
+
 NOT_YET = {}
 
 
